@@ -193,6 +193,7 @@ F5d == {Prog("F5d", <<S(Asg("=", d, Call("r2", <<>>))), S(Asg("=", v, Num(kk)))>
 \* (compared variant against variant by C14; these functions have no CSem body)
 C6 == {Call("lp", <<x>>) : x \in {Var("b"), Num(3), Var("X")}} \cup {Call("er", <<x>>) : x \in {Var("a"), Num(128), Idx("arr", Var("X"))}}
       \cup {Call("sw", <<x>>) : x \in {Var("a"), Var("X"), Num(1)}} \cup {Call("n2", <<x>>) : x \in {Var("b"), Num(2)}} \cup {Call("n3", <<x>>) : x \in {Var("a"), Var("b")}}
+      \cup {Call("swl", <<x>>) : x \in {Var("a"), Num(1), Var("X")}}
 F6 == {Prog("F6", <<S(Asg("=", d, c1))>>) : d \in {Var("a"), Var("X"), Idx("arr", Num(1))}, c1 \in C6}
       \cup {Prog("F6", <<S(Asg("=", Var("a"), c1)), S(Asg("=", Var("b"), c2))>>) : c1 \in C6, c2 \in C6}
       \cup {Prog("F6", <<S(Asg("=", Var("a"), Bin(op, c1, r)))>>) : op \in {"+", "&"}, c1 \in C6, r \in {Var("b"), Num(1)}}
@@ -200,6 +201,8 @@ F6 == {Prog("F6", <<S(Asg("=", d, c1))>>) : d \in {Var("a"), Var("X"), Idx("arr"
       \cup {Prog("F6", <<For(Asg("=", Var("X"), Num(0)), Bin("<", Var("X"), Num(3)), Inc(FALSE, 1, Var("X")), <<S(Asg("+", Var("c"), c1))>>)>>) : c1 \in {Call("sw", <<Var("X")>>), Call("lp", <<Var("X")>>), Call("n2", <<Var("b")>>)}}
       \cup {Prog("F6", <<S(Call("vd", <<x>>)), S(Asg("=", Var("b"), c1))>>) : x \in {Var("a"), Num(0), Var("X")}, c1 \in C6}
       \cup {Prog("F6", <<S(Call("vd", <<c1>>))>>) : c1 \in C6}
+      \cup {Prog("F6", <<S(Call("vl", <<x>>)), S(Asg("=", Var("b"), c1))>>) : x \in {Var("a"), Num(3), Var("X")}, c1 \in {Call("swl", <<Var("a")>>), Call("lp", <<Var("b")>>), Call("sw", <<Var("X")>>)}}
+      \cup {Prog("F6", <<S(Asg("=", Var("a"), Call("swl", <<x>>))), S(Call("vl", <<Var("a")>>)), S(Asg("=", Var("Y"), Call("swl", <<Var("b")>>)))>>) : x \in {Var("b"), Num(2)}}
 
 \* F7: statement sequences (stale flag / register beliefs across statements)
 Pool == {S(Asg("=", Var("a"), Var("b"))), S(Asg("=", Var("X"), Var("a"))), S(Asg("=", Var("Y"), Var("a"))), S(Inc(FALSE, 1, Var("a"))), S(Inc(TRUE, -1, Var("X"))),
@@ -316,7 +319,13 @@ XPool == {Load(Var("a")), Load(Var("PORT1")), Load(Num(5)), Load(Idx("arr", Var(
           Strobe("PORT3"), Strobe("PORT1"), Sleep(2), Sleep(5), Asm("NOP", "none", 0, "a"), Asm("LDA #7", "lda", 7, "a"), Asm("STA PORT2", "sta", 0, "PORT2"),
           Asm("INX", "inx", 0, "a"), S(Asg("=", Var("a"), Var("b"))), S(Asg("=", Var("X"), Var("a"))), S(Inc(FALSE, 1, Var("a"))), S(Asg("=", Var("b"), Num(5))),
           If(Var("a"), <<Set("c", 1)>>, <<>>)}
-FX == {Prog("FX", <<p, q>>) : p \in XPool, q \in XPool} \cup {Prog("FX", <<p, q, r>>) : p \in XPool, q \in XPool, r \in XPool}
+\* the same statements reached through (inline) functions of the driver's library: rdp = load(*PORT1), rda = load(a); store(*PORT2),
+\* wrp = store(*PORT2), stb = strobe(PORT3), slp = csleep(7)
+XCalls == {S(Call("rdp", <<>>)), S(Call("rda", <<>>)), S(Call("wrp", <<>>)), S(Call("stb", <<>>)), S(Call("slp", <<>>))}
+XMix == {Load(Var("PORT1")), Store(Var("PORT2")), Strobe("PORT3"), Sleep(5), S(Asg("=", Var("a"), Num(1))), S(Asg("=", Var("X"), Var("a"))), Load(Var("a"))}
+FXC == {Prog("FX", <<p, q>>) : p \in XCalls \cup XMix, q \in XCalls} \cup {Prog("FX", <<p, q>>) : p \in XCalls, q \in XMix}
+       \cup {Prog("FX", <<p, q, r>>) : p \in XCalls, q \in XCalls, r \in XCalls}
+FX == FXC \cup {Prog("FX", <<p, q>>) : p \in XPool, q \in XPool} \cup {Prog("FX", <<p, q, r>>) : p \in XPool, q \in XPool, r \in XPool}
       \cup {Prog("FX", <<For(Asg("=", Var("Y"), Num(0)), Bin("<", Var("Y"), Num(3)), Inc(FALSE, 1, Var("Y")), <<p, q>>)>>) : p \in XPool, q \in XPool}
       \cup {Prog("FX", <<If(Var("a"), <<p, q>>, <<q>>)>>) : p \in XPool, q \in XPool}
 \* FS: csleep(n) for every n, in straight-line contexts (cycle-exact) and in a loop
